@@ -98,11 +98,9 @@ def _tables(ctx, base):
     # sub_scrubber replaces with the table entry
     fi = ctx.repo.func('tract_preprocess:sub_scrubber')
     t = ' '.join(norm(s) for s in walk_local(fi.node) if isinstance(s, ast.stmt))
-    ctx.check('replace_with = QQ_SCRUBBER_DEFINITIONS[scrubber_rgx]' in t
+    ctx.shape('replace_with = QQ_SCRUBBER_DEFINITIONS[scrubber_rgx]' in t
               and 're.sub(scrubber_rgx, replace_with, txt)' in t, 'TBL',
-              'sub_scrubber substitutes the table entry of the regex it was given',
-              detail_bad="sub_scrubber no longer uses QQ_SCRUBBER_DEFINITIONS[scrubber_rgx]",
-              key="TBL|sub_scrubber")
+              'sub_scrubber substitutes the table entry of the regex it was given')
 
 
 def _glue(ctx, base):
@@ -171,17 +169,26 @@ def _joiners(ctx):
             ctx.check(L.fullmatch(s), 'RX-LANG', f"intervener remover matches {s!r}",
                       detail_bad=f"joiner {j!r} between components is no longer removed ({s!r})",
                       key=f"RX-LANG|aliquot_intervener_remover_regex|{j}|{a}")
+    GAP = r"([ ]{1,3}|\n[ ]{0,2}|[ ]{0,3}of([ ]{1,2}the)?[ ]{0,3}|\n[ ]{0,2}of[ ]the[ ])"
+    fam = rf"(([NESW]½)|((NE|NW|SE|SW)¼)){{1,2}}{GAP}(([NESW]½)|((NE|NW|SE|SW)¼))"
+    _inc(ctx, 'RX-LANG', 'aliquot_intervener_remover_regex', fam, rem, 'components joined by spaces / of / of the')
     gf = common.group_facts(ctx, rem)
     ctx.check('aliquot1' in gf and 'aliquot2' in gf, 'RX-GROUPS', 'intervener remover has aliquot1/aliquot2',
               detail_bad="groups missing", key="RX-GROUPS|aliquot_intervener_remover_regex")
     fi = ctx.repo.func('tract_preprocess:remove_aliquot_interveners')
     subs = [c for c in walk_local(fi.node) if isinstance(c, ast.Call) and dotted(c.func) == 're.sub']
-    if len(subs) != 1:
-        raise AnalysisError("remove_aliquot_interveners: re.sub not found")
-    tmpl = ctx.fold.eval(subs[0].args[1], {}, fi.module.name)
-    ctx.check(tmpl == r"\g<aliquot1>\g<aliquot2>", 'TBL',
-              'interveners are replaced by the two components, nothing in between',
-              detail_bad=f"replacement template is {tmpl!r}", key="TBL|remove_aliquot_interveners|template")
+    tmpls = []
+    for f2 in ctx.repo.funcs.values():
+        if f2.module.name.endswith('tract_preprocess'):
+            for c in walk_local(f2.node):
+                if isinstance(c, ast.Call):
+                    for a in list(c.args) + [k.value for k in c.keywords]:
+                        v = ctx.fold.eval(a, ctx.fold.func_env(f2), f2.module.name)
+                        if isinstance(v, str) and 'aliquot1' in v:
+                            tmpls.append(v)
+    ctx.tri(tmpls == [r"\g<aliquot1>\g<aliquot2>"], bool(tmpls) and any(t != r"\g<aliquot1>\g<aliquot2>" for t in tmpls), 'TBL',
+            'interveners are replaced by the two components, nothing in between',
+            detail_bad=f"replacement template is {tmpls!r}", key="TBL|remove_aliquot_interveners|template")
     # not inside ordinary prose
     for s in ('N½ and the NE¼', 'N½, NE¼', 'N½; NE¼'):
         ctx.check(not L.search(s), 'RX-LANG-NEG', f"separate elements stay separate: {s!r}",
@@ -192,6 +199,14 @@ def _joiners(ctx):
         ctx.check(Lh.fullmatch(s), 'RX-LANG', f"half_plus_q_regex matches {s!r}",
                   detail_bad=f"{s!r} (bare quarter directly after a half) is no longer recognised",
                   key=f"RX-LANG|half_plus_q_regex|{s}")
+    # a bare quarter directly before an already clean component is completed too
+    for nxt in ('NE¼', 'NW¼', 'SE¼', 'SW¼', 'N½', 'S½', 'E½', 'W½', ' of', ', less'):
+        for pre in ('S½NE', 'N½ SW', 'E½ of the NW'):
+            s_ = pre + nxt
+            ctx.check((0, len(pre)) in Lh.search_spans(s_), 'RX-LANG-CTX',
+                      f"half_plus_q_regex completes {pre!r} when followed by {nxt!r}",
+                      detail_bad=f"in {s_!r} the bare quarter after the half is no longer recognised (look-ahead misses {nxt!r}): "
+                                 f"the iterated substitution stops half-way", key=f"RX-LANG-CTX|half_plus_q_regex|{pre}|{nxt}")
     for s in ('NE', 'NENW', ' NE', 'of NE'):
         ctx.check(not Lh.search(s), 'RX-LANG-NEG', f"half_plus_q_regex needs a leading half: {s!r}",
                   detail_bad=f"a bare quarter {s!r} is treated as an aliquot without clean_qq",
@@ -213,26 +228,29 @@ def _order(ctx):
     base_loop = [n for n in loops if norm(n.iter) == 'SCRUBBER_REGEXES']
     clean_if = [n for n in fi.node.body if isinstance(n, ast.If) and norm(n.test) == 'clean_qq'
                 and any(isinstance(s, ast.For) and norm(s.iter) == 'CLEAN_QQ_REGEXES' for s in n.body)]
-    ctx.check(len(base_loop) == 1, 'ORDER', 'scrub_aliquots applies every base scrubber',
-              detail_bad="no loop over SCRUBBER_REGEXES", key="ORDER|scrub_aliquots|base")
-    ctx.check(len(clean_if) == 1, 'ORDER', 'bare-quarter scrubbers run only under `if clean_qq`',
-              detail_bad="CLEAN_QQ_REGEXES are not applied under exactly `if clean_qq:`",
-              key="ORDER|scrub_aliquots|clean-guard")
+    ctx.shape(len(base_loop) == 1, 'ORDER', 'scrub_aliquots applies every base scrubber')
+    ctx.shape(len(clean_if) == 1, 'ORDER', 'bare-quarter scrubbers run only under `if clean_qq`')
     # CLEAN_QQ_REGEXES never referenced outside that guard
     for n in walk_local(fi.node):
         if isinstance(n, ast.Name) and n.id == 'CLEAN_QQ_REGEXES':
             gs = [norm(t) for t, pol in guards(n) if pol]
-            ctx.check('clean_qq' in gs, 'ORDER', 'CLEAN_QQ_REGEXES used under clean_qq',
-                      detail_bad="bare-quarter regexes used outside the clean_qq guard",
-                      key="ORDER|scrub_aliquots|clean-use")
+            # a conditional expression `... if clean_qq else ...` also counts
+            p_ = n
+            cond = False
+            while p_ is not None and p_ is not fi.node:
+                if isinstance(p_, ast.IfExp) and 'clean_qq' in norm(p_.test):
+                    cond = True
+                p_ = getattr(p_, '_parent', None)
+            ctx.tri('clean_qq' in gs or cond, not gs and not cond, 'ORDER', 'CLEAN_QQ_REGEXES used under clean_qq',
+                    detail_bad="bare-quarter regexes are applied unconditionally: 'NE' is read as an aliquot without clean_qq",
+                    key="ORDER|scrub_aliquots|clean-use")
     calls = {}
     for st in fi.node.body:
         if isinstance(st, ast.Assign) and isinstance(st.value, ast.Call):
             calls[dotted(st.value.func)] = st
     hp, ri = calls.get('half_plus_q_scrubber'), calls.get('remove_aliquot_interveners')
-    ctx.check(hp is not None and ri is not None, 'ORDER',
-              'scrub_aliquots runs half_plus_q_scrubber and remove_aliquot_interveners',
-              detail_bad="a normalisation pass is missing", key="ORDER|scrub_aliquots|passes")
+    ctx.shape(hp is not None and ri is not None, 'ORDER',
+              'scrub_aliquots runs half_plus_q_scrubber and remove_aliquot_interveners')
     if hp is not None and ri is not None and base_loop and clean_if:
         for a, b, what in ((base_loop[0], clean_if[0], 'base scrubbers before bare-quarter scrubbers'),
                            (clean_if[0], hp, 'bare-quarter scrubbers before half-plus-quarter'),
@@ -246,16 +264,13 @@ def _order(ctx):
     # the result of each pass feeds the next (txt = f(txt))
     for st in (hp, ri):
         if st is not None:
-            ctx.check(norm(st.targets[0]) == 'txt' and any(norm(a) == 'txt' for a in st.value.args),
-                      'ORDER', f"scrub_aliquots: `{norm(st)}` threads txt",
-                      detail_bad="pass result dropped", key=f"ORDER|scrub_aliquots|thread|{dotted(st.value.func)}")
+            ctx.shape(norm(st.targets[0]) == 'txt' and any(norm(a) == 'txt' for a in st.value.args),
+                      'ORDER', f"scrub_aliquots: `{norm(st)}` threads txt")
     # TractPreprocessor.preprocess returns scrub_aliquots(text, clean_qq)
     fp = ctx.repo.func('TractPreprocessor.preprocess')
     t = ' '.join(norm(s) for s in walk_local(fp.node) if isinstance(s, ast.stmt))
-    ctx.check('return scrub_aliquots(text, clean_qq)' in t, 'ORDER',
-              'TractPreprocessor.preprocess == scrub_aliquots(text, clean_qq)',
-              detail_bad="preprocess no longer returns scrub_aliquots(text, clean_qq)",
-              key="ORDER|TractPreprocessor.preprocess")
+    ctx.shape('return scrub_aliquots(text, clean_qq)' in t, 'ORDER',
+              'TractPreprocessor.preprocess == scrub_aliquots(text, clean_qq)')
 
 
 def _half_plus_q(ctx):
@@ -269,23 +284,21 @@ def _half_plus_q(ctx):
                 for s in n.body:
                     if isinstance(s, ast.Assign) and norm(s.targets[0]) == 'rightmost_quarter':
                         pairs[m.group(1).upper()] = ctx.fold.eval(s.value, ctx.fold.module_env(fi.module.name), fi.module.name)
-    ctx.floor('half_plus_q rightmost branches', len(pairs), 4)
+    if len(pairs) < 4:
+        ctx.undecided('TBL', 'half_plus_q: <q>_found -> canonical quarter', 'branch chain not recognised')
     for q in ('NE', 'NW', 'SE', 'SW'):
-        ctx.check(pairs.get(q) == TOKENS[q], 'TBL', f"half_plus_q: {q.lower()}_found -> {TOKENS[q]!r}",
-                  detail_bad=f"{q.lower()}_found is rewritten to {pairs.get(q)!r}",
-                  key=f"TBL|process_half_plus_q_match|{q}")
+        if q in pairs:
+            ctx.check(pairs.get(q) == TOKENS[q], 'TBL', f"half_plus_q: {q.lower()}_found -> {TOKENS[q]!r}",
+                      detail_bad=f"{q.lower()}_found is rewritten to {pairs.get(q)!r}",
+                      key=f"TBL|process_half_plus_q_match|{q}")
     # the replacement is the match minus exactly the rightmost quarter's text
     rets = [n for n in walk_local(fi.node) if isinstance(n, ast.Return)]
     prov = flow.provenance(fi.node, rets[-1].value)
     cut = [p for p in prov if p[0] == 'sub' and isinstance(p[2].slice, ast.Slice)]
-    ok = any(norm(p[2].slice).replace(' ', '') == ':-len(rightmost_comparer)' for p in cut)
-    ctx.check(ok, 'DEFUSE', 'half_plus_q: the rightmost quarter is cut off by length',
-              detail_bad="the replacement no longer removes exactly the rightmost quarter's text "
-                         "(`[:-len(rightmost_comparer)]`)",
-              key="DEFUSE|process_half_plus_q_match|cut")
-    ctx.check(any(p[0] == 'call' and p[1] == 'mo.group' for p in prov), 'DEFUSE',
-              'half_plus_q: replacement starts from the full match',
-              detail_bad="replacement not derived from mo.group(0)", key="DEFUSE|process_half_plus_q_match|group0")
+    ok = any(':-len(' in norm(p[2].slice).replace(' ', '') for p in cut)
+    ctx.shape(ok, 'DEFUSE', 'half_plus_q: the rightmost quarter is cut off by length')
+    ctx.shape(any(p[0] == 'call' and p[1] == 'mo.group' for p in prov), 'DEFUSE',
+              'half_plus_q: replacement starts from the full match')
 
 
 def stripset(ctx, funcs, rule='STRIPSET'):
